@@ -26,14 +26,14 @@ PROPS = {
     "C17": {
         "units": ["value64", "opeval", "bigeval"],
         "level": "proof",
-        "clause": "For every operator (for ** only the negative-exponent rule of Table 11-4), every operand value (2- and 4-state), every operand width 0..64 (0 = unsized all-bit literal), every context width 1..64 and "
+        "clause": "For every operator, every operand value (2- and 4-state), every operand width 0..64 (0 = unsized all-bit literal), every context width 1..64 and "
                   "both signednesses, Op::eval_value_unary/eval_value_binary return the IEEE 1800 value (reference model units/opeval/harness.rs), stay in the <=64-bit "
                   "representation and keep the representation invariant; Value::{expand,trunc,select,concat,assign,set_value} and the ValueU64 primitives meet their bit-level "
                   "contracts (Kani/CBMC, loop-free harnesses over fully symbolic inputs = complete). "
                   "Widths above 64 bits (unit bigeval, Verus, unbounded in the width): every big-integer arm of eval_value_binary / eval_value_unary except ** and `as`, "
                   "Value::expand on all four paths, gen_mask, to_bigint, new_bigint are proved against the same IEEE definitions restated over natural numbers, assuming "
                   "mathematical contracts for the num-bigint operations; lemma_ext_bits / lemma_agree_* tie the two restatements together (same per-bit tables, same sval/tdiv/trem).",
-        "assumptions": ["not covered: Op::Pow with a non-negative exponent (BigUint::modpow), Value::trunc/select/concat above 64 bits, literal parsing establishing the representation invariant; "
+        "assumptions": ["** is decided in unit bigeval for both representations (pow_mod_width against the mathematical power with an assumed BigUint::modpow contract; exponents above usize::MAX only structurally) and, for negative and x/z exponents at <= 64 bits, also by Kani; not covered: Op::As, literal parsing establishing the representation invariant; "
                         "agreement of the two representations is by both being proved against one definition, there is no single cross-unit theorem",
                         "bigeval: num-bigint / num-traits operations carry assumed mathematical contracts (listed in trusted_base); match arms are extracted mechanically (rule EA) and the "
                         "<=64-bit sub-arm is proved unreachable (rule EB); overloaded operators are rewritten to trait-method calls (rule ED) because this Verus aborts on them",
